@@ -657,6 +657,11 @@ def s_cut(tag):
     return fn
 
 
+def ctx_positional(self, o, **kw):
+    extra = "".join(f"@{k}={v}" for k, v in sorted(kw.items()))
+    return f"Ctx:{type(o).__name__}{extra}[" + ",".join(str(self(c, **{f"p{i}": 1})) for i, c in enumerate(o.ufl_operands)) + "]"
+
+
 def P_(fn, ref=None):
     return ("post", fn, ref or fn)
 
@@ -1135,6 +1140,9 @@ def dt_families(e):
             ],
         ),
         ("op_only", [(ufl.classes.Operator, "post", s_post("Operator"))]),
+        # context-dependent traversal: every operator passes a different keyword (same value) to each operand, so
+        # a shared operand is reached under contexts that differ only in the keyword NAME
+        ("ctx", [(T, "cut", s_cut("Terminal")), (ufl.classes.Operator, "cut", ctx_positional)]),
         ("mathfn", [(Expr, "post", s_post("Expr")), (ufl.classes.MathFunction, "cut", s_cut("MathFunction"))]),
     ]
     for c in present_op_classes(e):
@@ -1180,14 +1188,15 @@ def part_b_dt(cx, mk, pairs):
                     if not outcome_same(got2, want) or sum(t.calls.values()) != n0:
                         cx.bad(tag + ":recall", "second call on the same traverser recomputed or changed the result", ex)
                     if famkey == "str":
-                        kw2 = {"tag": "y"}
-                        ref2 = RefDT(regs)
-                        want2 = run_it(lambda: ref2(e, **kw2))
-                        got3 = run_it(lambda: t(e, **kw2))
-                        cx.tr()
-                        cx.ok()
-                        if not outcome_same(got3, want2):
-                            cx.bad(tag + ":kwargs", f"result for other kwargs: got {show(got3[1])} want {show(want2[1])}", ex)
+                        # other value, other keyword name with the same value, names and values crossed
+                        for kw2 in ({"tag": "y"}, {"other": "x"}, {"tag": "x", "other": "y"}, {"other": "x", "tag": "y"}):
+                            ref2 = RefDT(regs)
+                            want2 = run_it(lambda: ref2(e, **kw2))
+                            got3 = run_it(lambda: t(e, **kw2))
+                            cx.tr()
+                            cx.ok()
+                            if not outcome_same(got3, want2):
+                                cx.bad(tag + ":kwargs", f"result for other kwargs {kw2}: got {show(got3[1])} want {show(want2[1])}", ex)
         if pairs and famkey in ("str", "only"):
             nsub = len(ref_distinct(e))
             for i in range(nsub):
